@@ -5,10 +5,15 @@ ID = "C05"
 _FILES = [("pkg/ppp/zz_verif_c05_test.go", "harness/C05/zz_verif_c05_test.go")]
 HARNESSES = [dict(name="ppp", pkg="./pkg/ppp/", test="TestVerifC05", timeout=900, files=_FILES),
              # the forced-overlap (two goroutine) cases run under the race detector
-             dict(name="ppp_race", pkg="./pkg/ppp/", test="TestVerifC05", timeout=900, files=_FILES, race=True)]
+             dict(name="ppp_race", pkg="./pkg/ppp/", test="TestVerifC05", timeout=900, files=_FILES, race=True),
+             # the caller: Dispatcher.HandleFrame with a real LCP/IPCP/IPv6CP behind it (package pppdisp)
+             dict(name="disp", pkg="./internal/ppp/", test="TestVerifC05D", timeout=900,
+                  files=[("internal/ppp/zz_verif_c05_disp_test.go", "harness/C05/zz_verif_c05_disp_test.go")])]
 
 
 def route(case):
+    if (case.split() or [""])[0] == "disp":
+        return "disp"
     return "ppp_race" if case.startswith("conc ") else "ppp"
 
 
@@ -156,6 +161,81 @@ def rand_walk(rng, n):
     return ops
 
 
+# ---- the dispatcher (kind disp) ----
+DPROTO = {"L": "c021", "I": "8021", "V": "8057"}
+DKIND = {"L": "lcp", "I": "ipcp", "V": "ipv6cp"}
+
+
+def dframe(ph, proto, code, idv, cls="g", data="-", declen="a", extra="-"):
+    return "F%d.%s.%d.%s.%s.%s.%s.%s" % (ph, proto, code, idv, cls, data or "-", declen, extra)
+
+
+def dreq(ph, t, cls="g", idv="7"):
+    return dframe(ph, DPROTO[t], 1, idv, cls, RCR_DATA[DKIND[t]][cls])
+
+
+def gen_disp(rng, quick):
+    up = lambda t: ["A%sU" % t, "A%sO" % t]
+    opened = lambda t, ph: up(t) + [dreq(ph, t), dframe(ph, DPROTO[t], 2, "c")]
+    prefixes = [[], up("L"), opened("L", 1), opened("L", 1) + up("I") + up("V"),
+                opened("L", 1) + opened("I", 3) + opened("V", 3),
+                opened("L", 1) + up("I") + [dreq(3, "I")], opened("L", 1) + opened("V", 3) + ["AVD"]]
+    protos = ["c021", "c023", "c223", "8021", "8057", "0057", "0021", "1234"]
+    frames = []
+    for proto in protos:
+        kind = {"c021": "lcp", "8021": "ipcp", "8057": "ipv6cp"}.get(proto, "lcp")
+        frames += [("1", "7", c, RCR_DATA[kind][c]) for c in "gnrm"]
+        frames += [(str(k), i, "g", "") for k in (2, 3, 4) for i in ("c", "s")]
+        frames += [("5", "9", "g", ""), ("6", "9", "g", ""), ("7", "9", "g", "01010004"), ("8", "9", "g", ""),
+                   ("8", "9", "g", "80"), ("8", "9", "g", "8021"), ("8", "9", "g", "80570102"), ("9", "9", "g", ""),
+                   ("9", "9", "g", "01020304"), ("9", "9", "g", "0102030405"), ("10", "9", "g", "01020304"),
+                   ("11", "9", "g", "01020304"), ("12", "9", "g", "aa"), ("0", "9", "g", ""), ("255", "9", "g", "")]
+    cases = []
+    nph = range(8)
+    for p in prefixes:
+        for ph in nph:
+            for proto in protos:
+                kind = {"c021": "lcp", "8021": "ipcp", "8057": "ipv6cp"}.get(proto, "lcp")
+                fr = [("1", "7", c, RCR_DATA[kind][c]) for c in "gnrm"]
+                fr += [(str(k), i, "g", "") for k in (2, 3, 4) for i in ("c", "s")]
+                fr += [("5", "9", "g", ""), ("6", "9", "g", ""), ("7", "9", "g", "01010004"), ("8", "9", "g", ""),
+                       ("8", "9", "g", "80"), ("8", "9", "g", "8021"), ("8", "9", "g", "80570102"),
+                       ("9", "9", "g", ""), ("9", "9", "g", "01020304"), ("9", "9", "g", "0102030405"),
+                       ("10", "9", "g", "01020304"), ("11", "9", "g", "01020304"), ("12", "9", "g", "aa"),
+                       ("0", "9", "g", ""), ("255", "9", "g", "")]
+                if quick and ph in (0, 5, 6, 7) and proto in ("c023", "c223", "0021", "1234"):
+                    fr = fr[:6]
+                ops = [dframe(ph, proto, int(c), i, cl, d) for c, i, cl, d in fr]
+                # one history per (prefix, phase, protocol): every frame in turn, then a timeout-free probe
+                cases.append(" ".join(["disp"] + p + ops))
+                for o in ops[:: (3 if quick else 1)]:
+                    cases.append(" ".join(["disp"] + p + [o, dframe(3, "c021", 5, "9")]))
+    # Length field / truncation / trailing bytes, raw short frames
+    for p in prefixes[1:5]:
+        for proto in ("c021", "8021", "8057", "c023", "0057", "1234"):
+            ops = []
+            for data in ("", "01040578", "010405780506aabbccdd"):
+                n = 4 + len(data) // 2
+                for dl in sorted({0, 1, 3, 4, 5, n - 1, n, n + 1, 255, 65535}):
+                    for extra in ("-", "ffee"):
+                        for code in (5, 9, 12):     # data is echoed / counted / ignored, never parsed as options
+                            ops.append(dframe(3, proto, code, "7", "g", data, str(dl), extra))
+            for raw in ("-", "01", "0107", "010700", "01070004", "0107000400", "09090008deadbeef"):
+                ops.append("S3.%s.%s" % (proto, raw))
+            # a truncated Configure-Request may parse differently: class of the cut option list
+            cases.append(" ".join(["disp"] + p + ops))
+    # random walks over frames and administrative calls
+    pool = ([dreq(ph, t, c) for ph in (1, 3, 4) for t in "LIV" for c in "gnr"] +
+            [dframe(ph, DPROTO[t], k, i) for ph in (1, 3) for t in "LIV" for k in (2, 3, 4) for i in ("c", "s")] +
+            [dframe(ph, DPROTO[t], k, "9", "g", d) for ph in (2, 3) for t in "LIV"
+             for k, d in ((5, ""), (6, ""), (7, "01010004"), (8, "8021"), (9, "01020304"), (10, "01020304"), (11, ""), (12, "aa"))] +
+            ["A%s%s" % (t, e) for t in "LIV" for e in "UODC"] * 2 +
+            [dframe(3, "c023", 1, "1", "g", "0102"), dframe(3, "0057", 96, "0", "g", "00000000"), "S3.8021.0107"])
+    for _ in range(300 if quick else 3000):
+        cases.append(" ".join(["disp"] + rng.choices(pool, k=40)))
+    return cases
+
+
 def gen_cases(rng, tier, budget):
     quick = tier != "thorough"
     cases = []
@@ -227,6 +307,7 @@ def gen_cases(rng, tier, budget):
         for a in A_SET:
             for b in B_SET:
                 cases.append(mk("conc", ("2", "1"), p + ["/", "s", a, b]))
+    cases += gen_disp(rng, quick)
     cases.append(mk("fsm", ("d", "d"), ["O", "U"] + ["I12.9.g.2"] * 300 + [RCA, "I2.s.g.0", RCRP, RCA]))
     cases.append(mk("fsm", ("d", "d"), ["O", "U"] + ["I3.c.g.0"] * 260 + [RCRP, RCA]))
     return cases
@@ -334,7 +415,21 @@ def cell_at(case, line, i):
     return STATES[pre[0]], rfc_class(ops[i], pre, t[0]), ops[i]
 
 
+def classify_disp(case, impl, model):
+    ops = case.split()[1:]
+    a, b = impl.split(), model.split()
+    for i in range(max(len(a), len(b))):
+        x = a[i] if i < len(a) else None
+        y = b[i] if i < len(b) else None
+        if x != y:
+            return "P", ("dispatcher: op %d %s: implementation -> %s, model (RFC 1661 routing + automaton tables) -> %s"
+                         % (i, ops[i] if i < len(ops) else "?", x, y))
+    return "G", "lines differ textually only"
+
+
 def classify(case, impl, model):
+    if (case.split() or [""])[0] == "disp":
+        return classify_disp(case, impl, model)
     si, sm = steps(impl), steps(model)
     if si is None or sm is None:
         return "P", "implementation output not a step list: %r" % impl[:200]
@@ -369,12 +464,23 @@ def classify(case, impl, model):
 
 
 def nontrivial(case, out):
+    if (case.split() or [""])[0] == "disp":
+        return any(t.split(":")[1] != "-" for t in out.split() if t.count(":") == 2)
     s = steps(out)
     return bool(s) and any(x[6] for x in s)
 
 
 def shrink(case):
     t = case.split()
+    if t[0] == "disp":
+        ops = t[1:]
+        for k in (len(ops) // 2, len(ops) - 1):
+            if 0 < k < len(ops):
+                yield " ".join(["disp"] + ops[:k])
+        if len(ops) > 1:
+            for i in range(len(ops) - 1, -1, -1):
+                yield " ".join(["disp"] + ops[:i] + ops[i + 1:])
+        return
     head, ops = t[:3], t[3:]
     tail = []
     if head[0] in ("conc", "late") and "/" in ops:
@@ -400,6 +506,24 @@ def distribution(cases, impl):
     for c, o in zip(cases, impl):
         t = c.split()
         d["kinds"][t[0]] = d["kinds"].get(t[0], 0) + 1
+        if t[0] == "disp":
+            dd = d.setdefault("dispatcher", {"ops": 0, "frames": 0, "to_LCP": 0, "to_IPCP": 0, "to_IPv6CP": 0,
+                                             "host_callbacks": 0, "dropped": 0, "err_short": 0, "err_len": 0})
+            for op, tok in zip(t[1:], (o or "").split()):
+                dd["ops"] += 1
+                if op[0] not in "FS" or tok.count(":") != 2:
+                    continue
+                dd["frames"] += 1
+                ev, err = tok.split(":")[1:]
+                dd["err_short"] += err == "short"
+                dd["err_len"] += err == "len"
+                if ev == "-":
+                    dd["dropped"] += err == "-"
+                elif ev[:2] in ("L.", "I.", "V."):
+                    dd[{"L": "to_LCP", "I": "to_IPCP", "V": "to_IPv6CP"}[ev[0]]] += 1
+                else:
+                    dd["host_callbacks"] += 1
+            continue
         s = steps(o or "")
         if s is None:
             d["panics_or_hangs"] += 1
